@@ -165,6 +165,7 @@ def run_plan(plan, oracle_factory, collect=None):
                 ctx.exc = exc
             ctx.events = world.events
             if world.fired is not None:
+                result.setdefault("fired_ops", []).append(i)
                 f = op.get("fault", {})
                 key = "%s:%s" % (f.get("kind"), f.get("exc", "InjectedFault"))
                 result["faults_fired"][key] = result["faults_fired"].get(key, 0) + 1
